@@ -399,9 +399,9 @@ def enumerate_cases(tier, seed):
         for ff in corpus.FFS:
             for group in GROUPS:
                 if group == "N+":
-                    cells = [("n", x) for x in ("ALA", "LYS", "PRO")]
+                    cells = [("n", x) for x in ("ALA", "LYS", "GLY")]
                 elif group == "C-":
-                    cells = [("c", x) for x in ("ALA", "GLY")]
+                    cells = [("c", x) for x in ("ALA", "SER")]
                 else:
                     cells = [(p, group) for p in corpus.POSITIONS]
                 for pos, x in cells:
